@@ -526,6 +526,8 @@ def arg_grammar(fi, lst):
     ('const', v) ('expr', text) ('splice', text) ('star', iterable text, [items per element])
     ('cond', condition text, [items]) -- from the statements of the function body in order"""
     def items_of(e, loopvar=None):
+        if isinstance(e, ast.Starred):
+            return [('splice', norm(e.value))]        # [a, *rest]
         if isinstance(e, ast.Constant):
             return [('const', e.value)]
         if loopvar and isinstance(e, ast.Name) and e.id == loopvar:
@@ -551,6 +553,17 @@ def arg_grammar(fi, lst):
                     if isinstance(a, (ast.List, ast.Tuple)):
                         for el in a.elts:
                             out += items_of(el, loopvar)
+                    elif isinstance(a, (ast.GeneratorExp, ast.ListComp)) and len(a.generators) == 2 and \
+                            not a.generators[0].ifs and not a.generators[1].ifs and \
+                            isinstance(a.generators[0].target, ast.Name) and \
+                            isinstance(a.generators[1].target, ast.Name) and \
+                            isinstance(a.generators[1].iter, (ast.Tuple, ast.List)) and \
+                            is_name(a.elt, a.generators[1].target.id):
+                        # extend(x for d in D for x in (c1, d)) == for d in D: extend([c1, d])
+                        inner = []
+                        for el in a.generators[1].iter.elts:
+                            inner += items_of(el, a.generators[0].target.id)
+                        out.append(('star', norm(a.generators[0].iter), inner))
                     else:
                         out.append(('splice', norm(a)))
                 continue
